@@ -98,6 +98,10 @@ class C17(Property):
                     "gctf_layout": rng.pick([LAYOUT_PLAIN, dict(LAYOUT_PLAIN, eol="\r\n"), dict(LAYOUT_PLAIN, numbered=False, seps=["\t"])])}
         hs = world.session(sess)
         handles = sorted(hs)
+        if len(tomos) >= 2 and rng.chance(0.06):
+            # a per-tomogram processing result goes missing (job failed, file cleaned up)
+            lost = fpath(rng.pick(tomos), rng.pick(["gctf", "ctffind4", "dose"]))
+            return {"op": "env.foreign_delete", "path": lost, "targets": [lost]}
         ops = [("mdoc_open", 3), ("load", 5), ("wedge_sg", 3), ("wedge_sg_batch", 3), ("wedge_em_batch", 2),
                ("mdoc_func", 2), ("reread", 2), ("sg_to_em", 1)]
         if handles:
@@ -789,7 +793,33 @@ class C17(Property):
         out = world.call(step["sess"], wedgeutils.create_wedge_list_sg_batch, tl, faults=step.get("faults", ()), **kw)
         world.note("wedge_sg_batch %d tomos -> %s" % (len(ids), out.describe()))
         rows_fn = lambda: [self.wedge_rows(world, tid, step, fmt) for tid in ids]
+        if not judge and out.ok and not out.fired:
+            self.check_no_stale_reuse(world, step, out.value, ids, inputs)
         return self.finish_wedge(world, step, out, judge, dst, rows_fn, "create_wedge_list_sg_batch") + aux
+
+    def is_absent(self, world, path):
+        m = world.mfs.get(path)
+        return m is not None and m[0] == "absent" and world.fs.get(path) is None
+
+    def check_no_stale_reuse(self, world, step, df, ids, inputs):
+        """a per-tomogram defocus/dose file is *missing* (removed by the foreign actor) and every other input is
+        intact: whatever the batch returns for that tomogram, it must not be another tomogram's numbers"""
+        others_ok = all(self.inputs_known(world, [p]) or self.is_absent(world, p) for p in inputs)
+        if not others_ok or "tomo_num" not in getattr(df, "columns", []):
+            return
+        for kind, col in (("ctf", "defocus"), ("dose", "exposure")):
+            if not step[kind] or col not in df.columns:
+                continue
+            for tid in ids:
+                if not self.is_absent(world, fpath(tid, step[kind])):
+                    continue
+                world.oracle()
+                world.probes["missing_per_tomogram_file_in_batch"] += 1
+                vals = df.loc[df["tomo_num"] == tid, col].to_numpy(dtype=float)
+                if len(vals) and np.isfinite(vals).any():
+                    raise Violation("wedge_values", "stale_input_reused:%s" % col,
+                                    "create_wedge_list_sg_batch: the %s file of tomogram %d does not exist, yet its rows carry %s values %r" % (
+                                        step[kind], tid, col, vals[:4].tolist()))
 
     def op_wedge_em_batch(self, world, step):
         ids = [i for i in step["tomos"] if i in world.model["tomos"]]
